@@ -368,6 +368,9 @@ class SVGShape:
                 return False
             if any(abs(lv - rv) > tolerance for lv, rv in zip(l_args, r_args)):
                 return False
+            # the large-arc and sweep flags of an arc are not coordinates: no tolerance
+            if l_cmd in ("A", "a") and tuple(l_args[3:5]) != tuple(r_args[3:5]):
+                return False
         return True
 
     def normalize_opacity(self, inplace=False):
